@@ -543,6 +543,11 @@ func (x *Exec) resolveLoc(env *Env, loc string) (l Loc, err error) {
 	if loc == "heap" {
 		return Loc{All: true}, nil
 	}
+	if loc == "jsonobjects" {
+		// every map[string]interface{} (objects decoded by encoding/json)
+		dom, domS, vals, valS := mapArrays(types.NewMap(types.Typ[types.String], types.NewInterfaceType(nil, nil)))
+		return Loc{Arrays: append([]string{dom}, vals...), Sorts: append([]Sort{domS}, valS...)}, nil
+	}
 	if strings.HasPrefix(loc, "ghost ") {
 		g := strings.TrimSpace(loc[6:])
 		var idx *T
